@@ -25,6 +25,8 @@
 // value syntax: u | d | (b t|f) | (i N) | (f BITS xTEXT) | (s xHEX) | (r xHEX) | (a v*) | (h (k v)*) | (ty xTEXT)
 //
 //	| (bin xHEX) | (ts xTEXT) | (tsp N) | (sv xTEXT) | (uri xTEXT) | (obj xTYPENAME v*) | (sens v)
+//	| (param xNAME xTYPETEXT v|none t|f) | (tname xNAMESPACE xNAME) | (dfr xNAME v*)      instances of the Go-implemented
+//	  object types Parameter (name, type, value or none, captures_rest), TypedName, Deferred
 //
 // `(f BITS xTEXT)`: decimal float rendering is a parameter of the model (DESIGN §3.4); TEXT is what the implementation
 // prints for that float in program format, computed when the op line is generated; the model prints TEXT and checks
@@ -243,6 +245,10 @@ func liveClass(v px.Value, depth int) (cls string, exc bool) {
 	switch x := v.(type) {
 	case *types.Regexp:
 		cls = rxClass(x.PatternString())
+	case types.Deferred:
+		// a Deferred VALUE prints in the named-argument form Deferred('name' => …, 'arguments' => […]), which the parser
+		// reads as the positional special form Deferred(name, args…)
+		cls = "deferred-value"
 	case types.Timespan, *types.Timestamp:
 		cls = "leaf-outside-quantifier"
 	case px.Type:
@@ -413,25 +419,8 @@ func typeClass(t px.Type, dflt string) string {
 				found["TypeAlias"] = true
 			}
 		case *types.CallableType:
-			// a Callable whose block position holds a non-Callable, or whose parameter list holds Unit (dropped when
-			// printing) or starts with a Tuple (read back as the whole parameter tuple)
-			if bt := x.BlockType(); bt != nil {
-				if o, ok := bt.(*types.OptionalType); ok {
-					bt = o.ContainedType()
-				}
-				if _, ok := bt.(*types.CallableType); !ok {
-					found["CallableBlock"] = true
-				}
-			}
-			if pt, ok := x.ParametersType().(*types.TupleType); ok {
-				for i, p := range pt.Types() {
-					if _, ok := p.(*types.UnitType); ok {
-						found["CallableBlock"] = true
-					}
-					if _, ok := p.(*types.TupleType); ok && i == 0 {
-						found["CallableBlock"] = true
-					}
-				}
+			if degenerateCallable(x) {
+				found["CallableBlock"] = true
 			}
 		case *types.RuntimeType:
 			// a pattern without a name: printed as (runtime, pattern), which the creator refuses
@@ -468,6 +457,63 @@ func typeClass(t px.Type, dflt string) string {
 		}
 	}
 	return cls
+}
+
+// degenerateCallable: does the Callable have a parameter list that does not print invertibly (known finding
+// C05-callable-block)?  Computed from the type itself — the negation of the model's `CallableShape`
+// (lean/Pcore/Proofs/CallableArgs.lean): the block is not a Callable / Optional[Callable]; no member types unless the Tuple is
+// [0, 0], or the default Tuple with a return or block type to print; a Unit member other than the single one that stands for
+// "sizes only"; without a return type a leading Tuple member; without block and size a trailing block-typed member.
+func degenerateCallable(x *types.CallableType) (deg bool) {
+	defer func() {
+		if recover() != nil {
+			deg = true
+		}
+	}()
+	isBlock := func(t px.Type) bool {
+		if o, ok := t.(*types.OptionalType); ok {
+			t = o.ContainedType()
+		}
+		_, ok := t.(*types.CallableType)
+		return ok
+	}
+	blk, ret := x.BlockType(), x.ReturnType()
+	if blk != nil && !isBlock(blk) {
+		return true
+	}
+	pt, ok := x.ParametersType().(*types.TupleType)
+	if !ok || pt == nil {
+		return false // the default Callable (no parameter Tuple): it has neither block nor return type
+	}
+	var size *types.IntegerType
+	if sv, ok := pt.Get("size_type"); ok {
+		size, _ = sv.(*types.IntegerType)
+	}
+	ts := pt.Types()
+	if len(ts) == 0 {
+		if size != nil && size.Min() == 0 && size.Max() == 0 {
+			return false
+		}
+		return !(size != nil && size.Min() == 0 && size.Max() == math.MaxInt64 && (ret != nil || blk != nil))
+	}
+	units := 0
+	for _, p := range ts {
+		if _, ok := p.(*types.UnitType); ok {
+			units++
+		}
+	}
+	if units > 0 {
+		return !(len(ts) == 1 && size != nil && !(size.Min() == 0 && size.Max() == 0))
+	}
+	if ret == nil {
+		if _, ok := ts[0].(*types.TupleType); ok {
+			return true
+		}
+	}
+	if blk == nil && size == nil && isBlock(ts[len(ts)-1]) {
+		return true
+	}
+	return false
 }
 
 // safeAccept: some Accept methods dereference a nil member of a default type (Init); that is not this property's business
@@ -729,6 +775,20 @@ func valOf(c px.Context, e sx.Sexp) px.Value {
 		return types.WrapURI(u)
 	case "sens":
 		return types.WrapSensitive(valOf(c, a[0]))
+	case "param":
+		var val px.Value
+		if !(a[2].Atom == "none" && !a[2].IsList) {
+			val = valOf(c, a[2])
+		}
+		return px.NewParameter(a[0].MustStr(), c.ParseType(a[1].MustStr()), val, a[3].MustBool())
+	case "tname":
+		return px.NewTypedName(px.Namespace(a[0].MustStr()), a[1].MustStr())
+	case "dfr":
+		vs := make([]px.Value, len(a)-1)
+		for i, k := range a[1:] {
+			vs[i] = valOf(c, k)
+		}
+		return types.NewDeferred(a[0].MustStr(), vs...)
 	case "obj":
 		vs := make([]px.Value, len(a)-1)
 		for i, k := range a[1:] {
@@ -858,7 +918,7 @@ func rxOp(s string) string {
 // valOp renders an rt-val op line.  A value built from the modelled kinds only (no types, objects, binaries, leaves)
 // also goes to the model, together with the regexp.Compile oracle for the text the implementation prints for it.
 func valOp(c px.Context, v string) string {
-	for _, tag := range []string{"(bin ", "(ts ", "(tsp ", "(sv ", "(uri ", "(obj ", "(sens "} {
+	for _, tag := range []string{"(bin ", "(ts ", "(tsp ", "(sv ", "(uri ", "(obj ", "(sens ", "(param ", "(tname ", "(dfr "} {
 		if strings.Contains(v, tag) {
 			return "@rt-val " + v + " ()"
 		}
@@ -1164,6 +1224,29 @@ func gen(g *core.G) {
 			"(a (a " + ty + ") (h (" + ty + " (s " + hx("x") + "))))", "(h ((a " + ty + " (i 5)) u))"} {
 			g.Emit(valOp(c, v))
 		}
+	}
+	// instances of the Go-implemented object types: Parameter (every combination of name, type, value absent / undef /
+	// given, captures_rest), TypedName (every namespace x plain / qualified name), Deferred values; alone and in containers
+	for _, nm := range []string{"x", "it's", "a b"} {
+		for _, ty := range []string{"Integer", "Optional[String[1]]", "Callable[[String], Integer]", "Struct[{a => Any}]", "My::Pt"} {
+			for _, val := range []string{"none", "u", "(s " + hx("d") + ")", "(i 5)", "(a (i 1))"} {
+				for _, rest := range []string{"t", "f"} {
+					pv := "(param " + hx(nm) + " " + hx(ty) + " " + val + " " + rest + ")"
+					g.Emit("@rt-val " + pv + " ()")
+					if rest == "f" {
+						g.Emit("@rt-val (a " + pv + " (h ((s " + hx("k") + ") " + pv + "))) ()")
+					}
+				}
+			}
+		}
+	}
+	for _, ns := range []string{"type", "function", "constructor", "definition", "handler", "service", "step", "plan", "task", "allocator", "interface"} {
+		for _, nm := range []string{"foo", "My::Thing", "a::b::c", "X"} {
+			g.Emit("@rt-val (tname " + hx(ns) + " " + hx(nm) + ") ()")
+		}
+	}
+	for _, dv := range []string{"(dfr " + hx("foo") + ")", "(dfr " + hx("foo") + " (i 1) (s " + hx("a") + "))", "(dfr " + hx("$x") + ")", "(a (dfr " + hx("my::fn") + " (a (i 1))))"} {
+		g.Emit("@rt-val " + dv + " ()")
 	}
 	// object instances over a type whose attributes have defaults: every combination of {explicit undef, the default,
 	// another value} per attribute — alone, and inside an array and a hash
